@@ -160,4 +160,68 @@ example (f1 : Nat) (as1 : List Term) (e1 : VM.End)
       endAgree e1 .exhausted :=
   vm_refines_sld_call progK _ 5 fragK2 (by decide) f1 40 as1 _ e1 _ h1 sldK2 hcalls
 
+/-! ## stage 3b: if-then-else, if-then
+
+      q(a).  q(b).
+      pick(X) :- ( q(X) -> true ; X = none ).          % the condition is solved once
+      t(X) :- ( true -> q(X), ! ; true ).              % a cut inside a branch is local to the branch
+      t(z).
+      w(X) :- ( q(X) -> true ), q(_).
+      w(z).
+      ?- pick(X).      one answer a
+      ?- t(X).         two answers a, z
+      ?- w(X).         three answers a, a, z
+
+  (`#eval Driver.C01.vmLine` = `specLine … false` on all three.) -/
+
+def pick (a : Term) : Term := .app "pick" (.cons a .nil)
+def t (a : Term) : Term := .app "t" (.cons a .nil)
+def w (a : Term) : Term := .app "w" (.cons a .nil)
+
+def progI : List Term :=
+  [q (.atom "a"), q (.atom "b"),
+   SLD.rule (pick (v 0)) (SLD.ifThenElse (q (v 0)) (.atom "true") (eq (v 0) (.atom "none"))),
+   SLD.rule (t (v 0)) (SLD.ifThenElse (.atom "true") (conj (q (v 0)) (.atom "!")) (.atom "true")),
+   t (.atom "z"),
+   SLD.rule (w (v 0)) (conj (SLD.mk2 "->" (q (v 0)) (.atom "true")) (q (v 1))),
+   w (.atom "z")]
+
+theorem fragI1 : CtlFrag progI (pick (v 0)) :=
+  ⟨by decide +kernel, by decide +kernel, by decide +kernel, (fun _ h => by cases h), by decide +kernel⟩
+
+theorem sldI1 : SLD.solveQuery 40 progI (pick (v 0)) 5 = some ([pick (.atom "a")], .exhausted) := by
+  decide +kernel
+
+theorem sldI2 : SLD.solveQuery 40 progI (t (v 0)) 5 = some ([t (.atom "a"), t (.atom "z")], .exhausted) := by
+  decide +kernel
+
+theorem sldI3 : SLD.solveQuery 40 progI (w (v 0)) 5 =
+    some ([w (.atom "a"), w (.atom "a"), w (.atom "z")], .exhausted) := by
+  decide +kernel
+
+example (f1 : Nat) (as1 : List Term) (e1 : VM.End)
+    (h1 : VM.runQuery f1 progI (Driver.C01.shiftVars 10 (pick (v 0))) 5 = some (as1, e1))
+    (hcalls : CallsOK true f1 progI (pick (v 0)) 5) :
+    Forall2 (AnsRel (Driver.C01.shiftVars 10 (pick (v 0)))) as1 [pick (.atom "a")] ∧ endAgree e1 .exhausted :=
+  vm_refines_sld_ctl progI _ 5 fragI1 (by decide) f1 40 as1 _ e1 _ h1 sldI1 hcalls
+
+/-- the cut inside the then-branch is local: the second clause of `t/1` is still tried -/
+example (f1 : Nat) (as1 : List Term) (e1 : VM.End)
+    (h1 : VM.runQuery f1 progI (Driver.C01.shiftVars 10 (t (v 0))) 5 = some (as1, e1))
+    (hcalls : CallsOK true f1 progI (t (v 0)) 5) :
+    Forall2 (AnsRel (Driver.C01.shiftVars 10 (t (v 0)))) as1 [t (.atom "a"), t (.atom "z")] ∧
+      endAgree e1 .exhausted :=
+  vm_refines_sld_ctl progI _ 5
+    ⟨fragI1.clauses, by decide +kernel, by decide +kernel, (fun _ h => by cases h), by decide +kernel⟩
+    (by decide) f1 40 as1 _ e1 _ h1 sldI2 hcalls
+
+example (f1 : Nat) (as1 : List Term) (e1 : VM.End)
+    (h1 : VM.runQuery f1 progI (Driver.C01.shiftVars 10 (w (v 0))) 5 = some (as1, e1))
+    (hcalls : CallsOK true f1 progI (w (v 0)) 5) :
+    Forall2 (AnsRel (Driver.C01.shiftVars 10 (w (v 0)))) as1 [w (.atom "a"), w (.atom "a"), w (.atom "z")] ∧
+      endAgree e1 .exhausted :=
+  vm_refines_sld_ctl progI _ 5
+    ⟨fragI1.clauses, by decide +kernel, by decide +kernel, (fun _ h => by cases h), by decide +kernel⟩
+    (by decide) f1 40 as1 _ e1 _ h1 sldI3 hcalls
+
 end PrologVerif.Refine.Example
